@@ -152,6 +152,10 @@ pub struct ReadCase {
     pub fields: Vec<FieldSpec>,
     /// octets after the RDATA
     pub suffix: Vec<u8>,
+    /// pad the message so that the last prefix name (the likely pointer target) starts
+    /// exactly at this offset (256, 512: pointers whose second octet is zero)
+    #[serde(default)]
+    pub align_target: Option<u16>,
     /// cursor adjustment (-2..=2) and RDLENGTH adjustment selector
     pub cursor_delta: i8,
     pub rdlength_mode: u8,
@@ -162,7 +166,12 @@ pub fn oracle_read(c: &ReadCase, st: &mut Stats) -> Verdict {
     st.eval();
     let mut r = Renderer::new();
     r.buf.extend_from_slice(&[0u8; 12]);
-    for n in &c.prefix {
+    for (i, n) in c.prefix.iter().enumerate() {
+        if let (Some(at), true) = (c.align_target, i + 1 == c.prefix.len()) {
+            while r.buf.len() < at as usize {
+                r.buf.push(0xee);
+            }
+        }
         r.put_name(n, 0xffff);
     }
     let start = r.buf.len();
@@ -281,8 +290,9 @@ fn read_case() -> impl Strategy<Value = ReadCase> {
         prop_oneof![8 => Just(0i8), 1 => -2i8..=2],
         0u8..12,
         any::<u16>(),
+        prop_oneof![5 => Just(None), 1 => Just(Some(256u16)), 1 => Just(Some(512u16))],
     )
-        .prop_map(|(mut prefix, (rtype, class, mut fields), suffix, cursor_delta, rdlength_mode, rdlength_sel)| {
+        .prop_map(|(mut prefix, (rtype, class, mut fields), suffix, cursor_delta, rdlength_mode, rdlength_sel, align_target)| {
             // make pointer targets likely: earlier names that share suffixes with the embedded names
             if rdlength_sel % 4 != 0 {
                 for f in fields.iter_mut() {
@@ -301,6 +311,7 @@ fn read_case() -> impl Strategy<Value = ReadCase> {
             rtype,
             fields,
             suffix,
+            align_target,
             cursor_delta,
             rdlength_mode,
             rdlength_sel,
